@@ -85,6 +85,8 @@ def check_C01(res, scratch, tier, seed):
     res.add_tlc(t)
     # (T) every Earley set the library places is a subset of the ideal set (hook SET), validated by TLC
     earley_trace_part(res, scratch, tier, seed, builds, ("C01",))
+    # (T) longer inputs: verdict clauses of ParseTrace.tla
+    long_trace_part(res, scratch, tier, seed, builds, ("C01",))
     res.cov["exhaustive"] = True
     res.assumptions = ["small-scope: exhaustive only over the stated families; the corpus (curated, chain families, seeded random) is a sample judged by TLC",
                        "vectors are computed by TLC from spec/Deriv.tla"]
@@ -116,6 +118,8 @@ def check_trans(res, scratch, tier, seed, prop, matrix, rule):
     for tag, cfg in trans_families(tier):
         run_family(res, scratch, tag, cfg, mk, builds=builds, mine=only(prop), timeout=3000)
     corpus_part(res, scratch, tier, seed, prop, matrix, ("curated", "random_trans", "random_amb"), trees=True, builds=builds, mems=(0, 0, 1, 2))
+    # inputs of 7-13 tokens: membership of every returned tree decided by TLC (Member.tla) instead of enumerating all translations
+    long_trace_part(res, scratch, tier, seed, builds, (prop,))
     res.cov["exhaustive"] = True
     res.assumptions = ["small-scope: exhaustive only over the stated families",
                        "expected translation sets are computed by TLC from spec/Trans.tla (least fixed point over spans)"]
@@ -243,6 +247,7 @@ def check_C07(res, scratch, tier, seed):
     for tag, cfg, mx in fams:
         lines = run_trace_family(res, scratch, tag, cfg, mx, builds, props=("C07",), timeout=3000, classify=classify_trace)
         res.cov["distinct_nontrivial"] += sum(1 for ln in lines if ln["calls"])
+    long_trace_part(res, scratch, tier, seed, builds, ("C07",))
     res.cov["exhaustive"] = True
 
 
@@ -1242,3 +1247,91 @@ def selftest():
         print("SELFTEST FAILURE:", f)
     print("selftest:", "FAILED" if failures else "ok (corrupted trace lines and a dropped hook event are rejected, untouched ones accepted)")
     return 1 if failures else 0
+
+
+# ------------------------------------------------------------------ longer inputs through trace validation (membership instead of enumeration)
+def long_sentence_entries():
+    """Curated grammars with listed inputs of 7-13 tokens (sentences and near-sentences): too long for the enumerating oracle
+    (set of all translations), fine for Member!IsTranslation / IsRepairTranslation on the trees the library returns."""
+    cur = {e["id"]: e for e in _corpus.curated()}
+    sel = {
+        "expr": [[1, 2, 1, 3, 1, 2, 1], [4, 1, 2, 1, 5, 3, 4, 1, 2, 1, 5], [1, 3, 1, 3, 1, 2, 1, 3, 1], [4, 4, 1, 2, 1, 5, 3, 1, 5, 2, 1], [1, 2, 1, 2, 3, 1, 2, 1], [4, 1, 2, 1, 3, 1, 5, 5, 2, 1]],
+        "ambexpr": [[1, 2, 1, 3, 1, 2, 1], [1, 3, 1, 3, 1, 3, 1], [1, 2, 1, 2, 1, 3, 1, 2, 1]],
+        "llist": [[1, 2] * 5 + [1], [1, 2] * 4 + [2, 1]],
+        "rlist": [[1, 2] * 5 + [1]],
+        "dangling": [[1, 1, 3, 2, 3], [1, 1, 1, 3, 2, 3, 2, 3], [1, 3, 2, 1, 3, 2, 3]],
+        "palin": [[1, 2, 1, 2, 1, 2, 1], [1, 2, 2, 1, 1, 2, 2, 1], [1, 2, 1, 1, 2, 1, 2]],
+        "stmts": [[1, 2, 1, 1, 2, 1, 2], [1, 1, 2, 2, 1, 2], [1, 2, 2, 2, 1, 2, 1, 2], [2, 1, 2, 1, 1, 1, 2]],
+        "nestederr": [[1, 3, 3, 4, 2], [1, 3, 3, 3, 2], [1, 3, 4, 2], [1, 3, 3, 4, 2, 2], [1, 4, 3, 3, 4, 2]],
+        "perm3": [[1, 1, 1, 1, 3], [1, 1, 1, 3]],
+        "nullmid": [[1, 1, 1, 1, 3], [1, 1, 1, 2, 3], [1, 1, 1, 1, 2, 3]],
+        "sameruleorig": [[1] * 6, [1] * 7],
+        "ctxfragR": [[1, 3, 7, 8, 4, 2, 1, 5, 7, 8, 6, 2], [1, 3, 7, 8, 6, 2, 1, 5, 7, 8, 6, 2]],
+        "staleplace": [[3, 3, 1, 2, 2, 3, 1, 2], [3, 1, 2, 2, 1, 2]],
+    }
+    out = []
+    for gid, inputs in sel.items():
+        e = dict(cur[gid])
+        e["maxlen"] = 0
+        e["inputs"] = inputs
+        out.append(e)
+    return out
+
+
+def long_trace_part(res, scratch, tier, seed, builds, props):
+    """Parses of the listed longer inputs, recorded and validated by TLC against ParseTrace.tla (every denoted tree must be a
+    translation of a derivation - or of a repair of the reported size -, callbacks, ambiguity flag, paired cost runs)."""
+    import concurrent.futures as cf
+    ents = long_sentence_entries()
+    code = CODEMAPS["ascii"]
+    mx = [(la, one, cost, 1, m, 0) for la in (0, 1, 2) for (one, cost) in ((1, 0), (0, 0), (0, 1), (1, 1)) for m in ((3,) if tier == "quick" else (1, 3))]
+    blocks, meta = [], {}
+    for e in ents:
+        vec = {"id": e["id"], "terms": e["terms"], "rules": e["rules"], "dn": [], "ds": [], "cases": [{"w": w, "sent": False, "nd": 0, "fo": -1} for w in e["inputs"]]}
+        b = blocks_from_vector(vec, mx, mems=(0, 1), want_trees=False)
+        b = [ln.replace("X sent=0 nd=-1", "X sent=-1") if ln.startswith("X ") else ln for ln in b]
+        blocks.append(b)
+        meta[e["id"]] = e
+    lines = []
+    recs, st = run_harness(os.path.join(builds[0], "yv_replay"), blocks, args=("-t",))
+    for r in recs:
+        if r.get("e") == "Abort":
+            res.violation(abort_key(r), dict(r, block=(r.get("block") or [])[:20]))
+        if r.get("k") != "parse" or r["over"]:
+            continue
+        e = meta[r["g"]]
+        c2n = {code(t["c"]): t["n"] for t in e["terms"]}
+        if len(r["trees"]) > 40:
+            continue      # membership of each tree is checked; very large denoted sets are left to the enumerating families
+        lines.append({"id": "%s/%s/%d,%d,%d,%d,%d" % (r["g"], r["w"], r["la"], r["one"], r["cost"], r["rec"], r["match"]), "terms": [t["n"] for t in e["terms"]], "rules": e["rules"],
+                      "sa": 1, "w": [c2n[c] for c in r["toks"]], "la": r["la"], "one": r["one"], "cost": r["cost"], "rec": r["rec"], "match": r["match"], "rc": r["rc"],
+                      "root": r["root"], "amb": r["amb"], "mp1": r.get("mp1", 0), "mp2": r.get("mp2", 0), "calls": r["calls"],
+                      "trees": [parse_canon(s, c2n) for s in r["trees"]], "over": 0, "_g": r["g"]})
+    base = {}
+    for ln in lines:
+        if ln["cost"] == 0 and ln["one"] == 0:
+            base[(ln["_g"], tuple(ln["w"]), ln["la"], ln["rec"], ln["match"])] = ln["trees"]
+    for ln in lines:
+        if ln["cost"] == 1:
+            b0 = base.get((ln["_g"], tuple(ln["w"]), ln["la"], ln["rec"], ln["match"]))
+            if b0 is not None:
+                ln["trees0"] = b0
+    chunks = [lines[i:i + 60] for i in range(0, len(lines), 60)]
+
+    def work(args):
+        i, ch = args
+        return validate_trace(scratch, "ParseTrace", [{k: v for k, v in ln.items() if k != "_g"} for ln in ch], "long_tr%d" % i, timeout=3000), ch
+    with cf.ThreadPoolExecutor(max_workers=max(1, NCPU // 2)) as ex:
+        for (ok, rej, tt), ch in ex.map(work, list(enumerate(chunks))):
+            if not ok:
+                raise Infra("ParseTrace (long inputs) did not finish: " + tt["tail"][-2500:])
+            res.cov["states"] += tt.get("distinct", 0)
+            res.cov["transitions"] += tt.get("states", 0)
+            res.cov["traces_validated_against_impl"] += len(ch)
+            for (lno, lid, reasons) in rej:
+                ln = ch[lno - 1]
+                for reason in reasons:
+                    if any(p in reason.split(":")[0] for p in props):
+                        rec = {"line": {k: v for k, v in ln.items() if k != "_g"}, "reason": reason}
+                        res.violation(classify_trace(rec) or ("trace|" + reason), rec)
+    res.notes["long_input_parses_validated"] = res.notes.get("long_input_parses_validated", 0) + len(lines)
